@@ -25,7 +25,7 @@ ASSUMPTIONS = [
 ]
 GATES = {
     "S2_observed": 1, "S3_observed": 1, "S4_observed": 1, "coarse_invalid_pixel": 1, "size_not_divisible": 1, "step_after_multiscale": 1,
-    "multiband": 1, "masks": 1, "fine_pixels_judged": 5000, "validation_before_multiscale": 1,
+    "multiband": 1, "masks": 1, "fine_pixels_judged": 5000, "validation_before_multiscale": 1, "right_side_ranges_judged": 1,
 }
 INVALID = 0b1111000011
 
@@ -125,19 +125,23 @@ def run_case(case, ctx):
     pipes.check(m, pipe, left, right)
     cfg = pipes.checked_cfg(m, pipe)
     lsnap, rsnap = gen.deep_copy_ds(left), gen.deep_copy_ds(right)
-    passes, coarse, after_ms = [], [], []
+    passes, coarse, after_ms, coarse_r = [], [], [], []
     ms_seen = {"n": 0}
 
     def before(ev, mm):
         if ev["kind"] == "multiscale" and ev["phase"] == "after":
             coarse.append(gen.deep_copy_ds(mm.left_disparity))
+            if mm.right_disparity is not None and "disparity_map" in mm.right_disparity:
+                coarse_r.append(gen.deep_copy_ds(mm.right_disparity))
 
     def after(ev, mm):
         kind = ev["kind"]
         if kind == "matching_cost" and ev["phase"] == "after":
             passes.append({"shape": (int(mm.left_img.sizes["row"]), int(mm.left_img.sizes["col"])),
                            "dmin": np.array(mm.disp_min, dtype=np.float64).copy(), "dmax": np.array(mm.disp_max, dtype=np.float64).copy(),
-                           "disp": mm.left_cv.coords["disp"].data.copy(), "scale": mm.current_scale})
+                           "disp": mm.left_cv.coords["disp"].data.copy(), "scale": mm.current_scale,
+                           "rdmin": None if (mm.right_cv is None or "cost_volume" not in mm.right_cv) else np.array(mm.right_disp_min, dtype=np.float64).copy(),
+                           "rdmax": None if (mm.right_cv is None or "cost_volume" not in mm.right_cv) else np.array(mm.right_disp_max, dtype=np.float64).copy()})
         elif kind == "multiscale" and ev["phase"] == "conditions":
             ms_seen["n"] += 1
         elif ev["phase"] == "after" and kind in ("filter", "refinement") and ms_seen["n"] >= S and ev["step_key"] in keys[keys.index([k for k in keys if pipes.kind_of(k) == "multiscale"][0]):]:
@@ -185,8 +189,13 @@ def run_case(case, ctx):
         ctx.violation("multiscale-step-executions", f"{len(coarse)} executions of the multiscale step for {S} scales", case, desc=desc)
         return
     nontrivial = False
-    for k in range(S - 1):
-        d = coarse[k]
+    sides = [("left", coarse, "dmin", "dmax", a, b)]
+    if "validation" in mid and len(coarse_r) == S - 1 and all(p_["rdmin"] is not None for p_ in passes):
+        sides.append(("right", coarse_r, "rdmin", "rdmax", -b, -a))
+        ctx.gate("right_side_ranges_judged")
+    for side, coarse_list, kmin, kmax, sa, sb in sides:
+      for k in range(S - 1):
+        d = coarse_list[k]
         dm = d["disparity_map"].data.astype(np.float64)
         vm = d["validity_mask"].data
         win = int(d.attrs["window_size"])
@@ -195,16 +204,15 @@ def run_case(case, ctx):
         Hc, Wc = dm.shape
         fine = passes[k + 1]
         Hf, Wf = fine["shape"]
-        fmin, fmax = fine["dmin"], fine["dmax"]
+        fmin, fmax = fine[kmin], fine[kmax]
         if fmin.ndim != 2 or fmin.shape[0] < Hf or fmin.shape[1] < Wf:
-            ctx.violation("fine-interval-grid-shape", f"level {k + 1}: grids of shape {fmin.shape} for an image {Hf}x{Wf}", case, desc=desc)
+            ctx.violation("fine-interval-grid-shape", f"{side} level {k + 1}: grids of shape {fmin.shape} for an image {Hf}x{Wf}", case, desc=desc)
             continue
         lvl = f ** (S - 2 - k)  # divisor of the user interval at the finer level
-        ua, ub = a / lvl, b / lvl
+        ua, ub = sa / lvl, sb / lvl
         dmn = np.where(valid, dm, np.nan)
         ctx.gate("coarse_invalid_pixel", int((~valid).any()))
         nontrivial = nontrivial or bool((~valid).any() and valid.any())
-        # candidate expected intervals per coarse pixel
         cmin = np.full((Hc, Wc), np.nan)
         cmax = np.full((Hc, Wc), np.nan)
         whole = np.ones((Hc, Wc), bool)
@@ -243,10 +251,10 @@ def run_case(case, ctx):
             py, px = y // f, x // f
             ctx.violation(
                 "per-pixel-range-rule",
-                f"level {k}->{k + 1}: {bad}/{Hf * Wf} fine pixels; pixel ({y},{x}) searched [{fmin[y, x]},{fmax[y, x]}]; geometric parent "
-                f"({py},{px}) valid={bool(valid[py, px]) if py < Hc and px < Wc else None}, window range "
+                f"{side} image, level {k}->{k + 1}: {bad}/{Hf * Wf} fine pixels; pixel ({y},{x}) searched [{fmin[y, x]},{fmax[y, x]}]; geometric "
+                f"parent ({py},{px}) valid={bool(valid[py, px]) if py < Hc and px < Wc else None}, window range "
                 f"[{cmin[py, px] if py < Hc and px < Wc else None},{cmax[py, px] if py < Hc and px < Wc else None}] (x{f}, marge {marge}), "
-                f"level interval [{ua},{ub}]", case, situation="marge" if marge else "no-marge", desc=desc)
+                f"level interval [{ua},{ub}]", case, situation=f"{side}:{'marge' if marge else 'no-marge'}", desc=desc)
     if ctx.evaluations <= 2:
         ctx.sample({"case": desc, "passes": [list(s) for s in got_shapes], "coarsest_interval": [float(c0[0]), float(c0[-1])]})
     if not nontrivial:
